@@ -392,6 +392,9 @@ func ApplyScalarMove(s *secp256k1.Scalar, mv ScalarMove) {
 		_ = o.CSelect(mv.Cond|1, s, s)
 		o.Set(s).Pow(secp256k1.NewScalar().SetUInt64(3))
 		secp256k1.Base().Multiply(s)
+		secp256k1.NewElement().Multiply(s)             // an identity receiver
+		secp256k1.Base().Subtract(secp256k1.Base()).Multiply(s) // ... as arithmetic leaves it
+		secp256k1.Base().Negate().Multiply(s)
 		_, _ = o.Encode(), o.Bits()
 		_ = Scal(aux).LessOrEqual(s) // last: the object as the ARGUMENT of a comparison
 	case "random-skip-then-fault-recovered":
